@@ -47,7 +47,8 @@ class Color(enum.Enum):
     GREEN = "g"
 
 
-POOL = [1, 11, 35, 8, 9, 10, 55, 58, 453, 448, 447, 802, 523, 5001, 99999, 2, 3]
+# incl. numbers the FTag enum has no member for (101, 261, 450, 809 are gaps inside its range; 957 is just beyond it)
+POOL = [1, 11, 35, 8, 9, 10, 55, 58, 453, 448, 447, 802, 523, 5001, 99999, 2, 3, 101, 261, 450, 809, 957]
 FT = {int(m.value): m for m in FTag}
 VALS_S = ["", "x", "abc", "a|b", "a=b", "1=>[448=x]", "a|12=b", "=>", " lead", "trail ", "10=000", "8=FIX.4.4", "0", "1.50",
           "[", "]", "2=>[448=p, 448=q]", "|", "11=x", "#err#"]
@@ -60,7 +61,7 @@ val = st.one_of(
     st.tuples(st.just("s"), st.sampled_from(VALS_S)),
     st.tuples(st.just("s"), st.text(alphabet=st.characters(min_codepoint=32, max_codepoint=126), max_size=6)),
     st.tuples(st.just("i"), st.integers(-5, 10**6)),
-    st.tuples(st.just("f"), st.sampled_from([0.0, 1.5, -2.25, 21.21, 1e-7, 100.0])),
+    st.tuples(st.just("f"), st.sampled_from([0.0, 1.5, -2.25, 21.21, 1e-7, 100.0, 9.999999999999998e-05, 3e-17, -1e-17, 1e16, 2.5e22, 0.1 + 0.2])),
     st.tuples(st.just("e"), st.integers(0, len(ENUMS) - 1)),
 )
 member = st.tuples(st.sampled_from([448, 447, 452, 58, 1, 523, 11]), val)
@@ -684,8 +685,46 @@ def hyp_shard(acc, n, seed, maxlen):
     run_given(history(maxlen), lambda ops: run_case(acc, ops), n, seed)
 
 
+def big_groups(acc):
+    """Groups of 9 .. 300 items: index order, lookups by member value before and after items were edited through the references
+    the accessors hand out, additions at an index, NumInGroup rendering across digit counts."""
+    for n in (9, 10, 31, 32, 33, 40, 100, 300):
+        case = {"big_group": n}
+
+        def bad(sig, detail, n=n, case=case):
+            acc.violation(f"C18:big-group/{sig}", detail + f" | group of {n} items", case)
+        c = FIXMessage("D")
+        for i in range(n):
+            c.add_group(453, {448: f"p{i}", 452: i % 5})
+        try:
+            if [g[448] for g in c.get_group_list(453)] != [f"p{i}" for i in range(n)]:
+                bad("order", "get_group_list does not return the items in insertion order")
+            if c.get_group_by_tag(453, 448, f"p{n - 2}")[448] != f"p{n - 2}" or c.get_group_by_index(453, n - 1)[448] != f"p{n - 1}":
+                bad("lookup", "lookup of a late item failed")
+            # edit an EARLY item through the reference so that it carries the value of a late one: first match in index order wins
+            c.get_group_by_index(453, 3).set(448, f"p{n - 2}", replace=True)
+            got = c.get_group_by_tag(453, 448, f"p{n - 2}")
+            if got is not c.get_group_by_index(453, 3):
+                bad("lookup-after-edit", f"get_group_by_tag returned the item at a later index although item 3 now carries the value (452={got.get(452, None)})")
+            # the old value of item 3 is gone
+            try:
+                c.get_group_by_tag(453, 448, "p3")
+                bad("lookup-stale-value", "get_group_by_tag still finds the value item 3 carried before it was edited")
+            except TagNotFoundError:
+                pass
+            c.add_group(453, {448: "front"}, 0)
+            if c.get_group_by_index(453, 0)[448] != "front" or c.get_group_by_index(453, 4)[448] != f"p{n - 2}" or len(c.get_group_list(453)) != n + 1:
+                bad("add-at-index", "add_group(..., index=0) did not shift the items by one")
+            if not str(c.tags["453"]).startswith(f"{n + 1}=>"):
+                bad("count-rendering", f"group renders as {str(c.tags['453'])[:20]!r}, expected NumInGroup {n + 1}")
+        except Exception as e:  # noqa
+            bad(f"raises/{type(e).__name__}", f"{type(e).__name__}: {e}")
+        acc.case(("big-group", n), cls=["big-group"])
+
+
 def fixed(acc):
     """Seed-independent histories that pin the interesting corners on every run."""
+    big_groups(acc)
     T = (11, "int")
     cases = [
         [("set", T, ("s", "a|12=b"), False), ("eq", 0)],
@@ -717,6 +756,9 @@ def _tup(x):
 
 
 def replay(acc, case):
+    if "big_group" in case:
+        big_groups(acc)
+        return
     ops = [_detuple(o) for o in case["ops"]]
     run_case(acc, ops)
 
